@@ -5,14 +5,16 @@ import (
 	"os"
 )
 
-func (w *world) execRender2(op M) bool { return false }
+func (w *world) execRender2(op M) bool {
+	switch opStr(op, "op") {
+	case "measure":
+		w.lastRes = M{"metrics": obsMetrics(op)}
+		return true
+	}
+	return false
+}
 
 func (w *world) observeMore(obs M, facets map[string]bool, op M) {}
-
-type substitution struct{}
-
-func newSubstitution(seed int64, pool string) *substitution { return &substitution{} }
-func (s *substitution) applyOp(op M)                        {}
 
 func runRegistryMode(in *os.File, w *bufio.Writer)                  { derr("not built") }
 func runConcMode(in *os.File, w *bufio.Writer, f map[string]bool) { derr("not built") }
